@@ -1599,12 +1599,20 @@ def _is_vectors(fo):
 
 
 def _ref_line(sc):
+    if sc.get("kind") == "refimpl_compress":
+        return "compress %s %s %d %d %d" % (sc["cv_hex"], sc["block_hex"], sc["counter"], sc["block_len"], sc["flags"])
     ctx = sc.get("context", "").encode("utf-8").hex() or "-"
     return "%s %s %s %d %d %d%s" % (sc["mode"], sc.get("key_hex") or "-", ctx, sc["input_len"], sc["out_len"],
                                     sc.get("split", 0), (" %d" % sc["extra"]) if sc.get("extra") else "")
 
 
 def _ref_expected(sc):
+    if sc.get("kind") == "refimpl_compress":
+        import struct
+        h = list(struct.unpack("<8I", bytes.fromhex(sc["cv_hex"])))
+        m = list(struct.unpack("<16I", bytes.fromhex(sc["block_hex"])))
+        out = b3spec.compress(h, m, sc["counter"], sc["block_len"], sc["flags"])
+        return struct.pack("<16I", *out).hex()
     data = gen_input({"pattern": "inc251", "len": sc["input_len"] + (700 if sc.get("extra") == 2 else 0)})
     key = bytes.fromhex(sc["key_hex"]) if sc.get("key_hex") else None
     return b3spec.blake3(data, _RMODE[sc["mode"]], key=key, context=sc.get("context", ""), out_len=sc["out_len"]).hex()
@@ -1635,6 +1643,13 @@ def _ref_cases(rng):
                 # with more input after that finalize (extra 2)
                 out.append(dict(sc, extra=1))
                 out.append(dict(sc, extra=2))
+    # the private compress() at counters no input a machine can hold reaches (4 TiB and beyond, output blocks >= 2^32)
+    cv = bytes(rng.randrange(256) for _ in range(32)).hex()
+    blk = bytes(rng.randrange(256) for _ in range(64)).hex()
+    for t in (0, 1, (1 << 32) - 2, (1 << 32) - 1, 1 << 32, (1 << 32) + 1, (1 << 33) - 2, (1 << 33) - 1, 1 << 33,
+              3 * (1 << 32) - 1, (1 << 54) - 1, (1 << 63) + 5, (1 << 64) - 2, (1 << 64) - 1):
+        for bl, fl in ((64, 0), (64, 1 | 2 | 8), (1, 11), (0, 16 | 8)):
+            out.append({"kind": "refimpl_compress", "cv_hex": cv, "block_hex": blk, "counter": t, "block_len": bl, "flags": fl})
     return out
 
 
@@ -1677,6 +1692,8 @@ def refimpl_find(prop, fo, seed, deadline):
                     return {"found": {"scenario": sc, "features": [], "family": "refimpl", "expected": _ref_expected(sc),
                                       "observed": "runner stopped (rc=%s): %s" % (rc, (err or "")[-300:]), "panic": None},
                             "log": log}
+                if lines[j] == "UNSUPPORTED":
+                    continue
                 log["scenarios_run"] += 1
                 want = _ref_expected(sc)
                 if lines[j] != want:
